@@ -59,6 +59,8 @@ func checkC06(c *Ctx) {
 	c06Recursion(c, m)
 	c.rule("C06.R11", "no write into a nil map: every map field of a module struct that is written through (m[k] = v, m[k]++) only ever receives a map that exists (make, literal, or a local bound to one); a struct literal that leaves it out is completed by a store in the same function", 3)
 	c06NilMaps(c)
+	c06ErrorsNotFiltered(c)
+	c06PendingOnlyIfPresented(c, m)
 	c.rule("C06.R10", "premises decided elsewhere: the markup stage that Next calls for every line and option never panics and keeps attributes inside the text (C15.R1–R5)", 5)
 	dependsOn(c, "C06.R10", "Next parses the markup of every line and option it returns: a panic there is a panic of Next", "C15.R1", "C15.R2", "C15.R3", "C15.R4", "C15.R5")
 	info := m.pkg.TypesInfo
@@ -839,5 +841,170 @@ func c06Recursion(c *Ctx, m *runnerModel) {
 	}
 	if n == 0 {
 		c.obN("C06.R9", "run-time call graph", "-", true, "no recursion among the run-time functions of the root package", false)
+	}
+}
+
+// c06ErrorsNotFiltered (C06.R12): a script-level fault travels as an error value from the evaluator to Next's caller. In
+// the interpreter package, the error of every call to a module function is either handed on in the next return, or tested
+// by a guard whose condition is exactly `err != nil` and whose body leaves the function (return / goto / panic): a guard
+// weakened by a second conjunct (errors.Is, a comparison with a sentinel, a type test) lets some faults continue as if
+// nothing had happened — including faults wrapped further down with %w.
+func c06ErrorsNotFiltered(c *Ctx) {
+	w := c.W
+	c.rule("C06.R12", "script-level faults are not filtered: in the interpreter package the error of every call to a module function is returned as it is in the next return, or tested by a guard whose condition is exactly `err != nil` and whose body leaves the function; no guard weakens the test with a second conjunct (errors.Is/As, a sentinel comparison)", 20)
+	p := w.Pkg("")
+	info := p.TypesInfo
+	isErr := func(t types.Type) bool { return t != nil && typeStr(t) == "error" }
+	n := 0
+	for _, f := range w.FuncsIn(p) {
+		if f.Body == nil {
+			continue
+		}
+		ast.Inspect(f.Body, func(q ast.Node) bool {
+			if _, isLit := q.(*ast.FuncLit); isLit && q != f.Node() {
+				return true
+			}
+			is, ok := q.(*ast.IfStmt)
+			if !ok {
+				return true
+			}
+			// the error variable tested: defined by the if's own initialiser or by the statement just before it, from a module call
+			var errObj types.Object
+			var fromCall *ast.CallExpr
+			find := func(st ast.Stmt) {
+				as, ok := st.(*ast.AssignStmt)
+				if !ok || len(as.Rhs) != 1 {
+					return
+				}
+				call, ok := unparen(as.Rhs[0]).(*ast.CallExpr)
+				if !ok {
+					return
+				}
+				callee := calleeOf(info, call)
+				if callee == nil || w.byObj[callee] == nil {
+					return
+				}
+				last := as.Lhs[len(as.Lhs)-1]
+				id := identOf(last)
+				if id == nil || id.Name == "_" || !isErr(info.TypeOf(last)) {
+					return
+				}
+				obj := info.Defs[id]
+				if obj == nil {
+					obj = info.Uses[id]
+				}
+				errObj, fromCall = obj, call
+			}
+			if is.Init != nil {
+				find(is.Init)
+			}
+			if errObj == nil {
+				if blk, ok := w.parent[is].(*ast.BlockStmt); ok {
+					for i, st := range blk.List {
+						if st == ast.Stmt(is) && i > 0 {
+							find(blk.List[i-1])
+						}
+					}
+				}
+			}
+			if errObj == nil {
+				return true
+			}
+			mentions := false
+			ast.Inspect(is.Cond, func(x ast.Node) bool {
+				if id, ok := x.(*ast.Ident); ok && info.Uses[id] == errObj {
+					mentions = true
+				}
+				return true
+			})
+			if !mentions {
+				return true
+			}
+			n++
+			callee := calleeOf(info, fromCall)
+			key := f.Name + "/error of " + callee.Name() + "#" + itoa(n)
+			exact := false
+			if b, ok := unparen(is.Cond).(*ast.BinaryExpr); ok && b.Op == token.NEQ {
+				for _, side := range [][2]ast.Expr{{b.X, b.Y}, {b.Y, b.X}} {
+					if id := identOf(side[0]); id != nil && unparen(side[0]) == ast.Expr(id) && info.Uses[id] == errObj && isNilExpr(info, side[1]) {
+						exact = true
+					}
+				}
+			}
+			leaves := isTerminating(info, is.Body)
+			switch {
+			case exact && leaves:
+				c.obN("C06.R12", key, w.Pos(is.Pos()), true, "tested by `"+exprStr(is.Cond)+"`, and the guard leaves the function", false)
+			case exact:
+				c.ob("C06.R12", key, w.Pos(is.Pos()), true, "tested by `"+exprStr(is.Cond)+"`; the guard handles the error and goes on (reviewed form: the body does not leave)")
+			default:
+				if b, ok := unparen(is.Cond).(*ast.BinaryExpr); ok && b.Op == token.EQL {
+					// err == nil { … }: the positive form; the else branch or the rest handles the error
+					c.obN("C06.R12", key, w.Pos(is.Pos()), true, "tested by `"+exprStr(is.Cond)+"`", false)
+					return true
+				}
+				c.ob("C06.R12", key, w.Pos(is.Pos()), false, "the error of "+callee.Name()+" is tested by `"+shorten(exprStr(is.Cond), 90)+"`, not by `err != nil` alone: a fault for which the extra condition fails (also one wrapped further down with %w) continues as if the call had succeeded — the script-level fault does not surface")
+			}
+			return true
+		})
+	}
+	_ = n
+}
+
+// c06PendingOnlyIfPresented (C06.R13): when Next records the statement it fetched as the pending one (a non-nil store to the
+// field that isWaitingForChoice reads), it does not return an error afterwards without clearing the record: an option group
+// that failed to render (a condition that is not a boolean, a failing inline expression) was never presented, yet the next
+// call would index its options with whatever choice argument the host passes — out of range, a panic.
+func c06PendingOnlyIfPresented(c *Ctx, m *runnerModel) {
+	w := c.W
+	c.rule("C06.R13", "a statement recorded as pending in this call is presented or cleared: in Next no return that carries an error follows a non-nil store to the last-statement field without a nil store in between (an option group that failed to render must not be waited on: the next call would index it with an arbitrary choice)", 1)
+	if m.fLast == nil || m.next == nil {
+		c.undecided("C06.R13", "the last-statement field or Next was not found")
+		return
+	}
+	info := m.pkg.TypesInfo
+	stores := 0
+	r := evtRule{
+		start: "entry",
+		prim: func(n ast.Node) []string {
+			if as, ok := n.(*ast.AssignStmt); ok && len(as.Lhs) == len(as.Rhs) {
+				for i, l := range as.Lhs {
+					if _, isSel := unparen(l).(*ast.SelectorExpr); isSel && lastField(info, l) == m.fLast {
+						stores++
+						if isNilExpr(info, as.Rhs[i]) {
+							return []string{"CLEAR"}
+						}
+						return []string{"ARM"}
+					}
+				}
+			}
+			return nil
+		},
+		step: func(st, ev string) string {
+			switch ev {
+			case "ARM":
+				return "armed"
+			case "CLEAR":
+				return "clean"
+			}
+			return ""
+		},
+		ret: func(st string, ret *ast.ReturnStmt, kind string) string {
+			if st == "armed" && kind != "nil" {
+				return "Next can return an error (" + kind + ") after recording the fetched statement as pending and without clearing it: an option group that failed to render stays pending, and the next call indexes its options with the host's choice argument"
+			}
+			return ""
+		},
+	}
+	fs := runEVT(w, m.next, r)
+	if stores == 0 {
+		c.undecided("C06.R13", "Next never stores to the last-statement field")
+		return
+	}
+	if len(fs) == 0 {
+		c.ob("C06.R13", m.next.Name+"/pending-presented-or-cleared", w.Pos(m.next.Decl.Pos()), true, "no error return of Next follows a non-nil store to "+m.fLast.Name()+" without a clearing store")
+	}
+	for i, fd := range fs {
+		c.ob("C06.R13", m.next.Name+"/pending-presented-or-cleared#"+itoa(i+1), w.Pos(fd.pos), false, fd.msg)
 	}
 }
